@@ -113,6 +113,52 @@ pub fn run_c14(args: &Args) -> i32 {
             }
         }
     }
+    // every mate distance of either colour against every representative, both orders, all observations
+    {
+        let bad: Vec<(Score, Score)> = (0..=u16::MAX)
+            .into_par_iter()
+            .flat_map_iter(|x| {
+                let mut bad = vec![];
+                for a in [Score::BlackMateIn(x), Score::WhiteMateIn(x)] {
+                    for &b in &reps {
+                        if !c14_pair(a, b).is_empty() || !c14_pair(b, a).is_empty() {
+                            bad.push((a, b));
+                        }
+                    }
+                }
+                bad
+            })
+            .collect();
+        n += 65536 * 2 * reps.len() as u64 * 2;
+        for (a, b) in bad.into_iter().take(50) {
+            report.record(&c14_pair(a, b), || json!({"kind": "pair", "a": score_name(a), "b": score_name(b)}));
+            report.record(&c14_pair(b, a), || json!({"kind": "pair", "a": score_name(b), "b": score_name(a)}));
+        }
+        // numeric scores on a grid against every representative
+        let mut xs: Vec<i32> = vec![];
+        let mut x = i32::MIN as i64;
+        while x <= i32::MAX as i64 {
+            xs.push(x as i32);
+            x += 65_521;
+        }
+        for c in [0i64, 900, -900, 1800, 65_535, -65_536] {
+            for dlt in -300..=300i64 {
+                xs.push((c + dlt) as i32);
+            }
+        }
+        for &x in &xs {
+            for &b in &reps {
+                n += 2;
+                let a = Score::Raw(x);
+                let d1 = c14_pair(a, b);
+                let d2 = c14_pair(b, a);
+                if !d1.is_empty() || !d2.is_empty() {
+                    report.record(&d1, || json!({"kind": "pair", "a": score_name(a), "b": score_name(b)}));
+                    report.record(&d2, || json!({"kind": "pair", "a": score_name(b), "b": score_name(a)}));
+                }
+            }
+        }
+    }
     let mut exhaustive_mates = false;
     if args.tier == Tier::Thorough {
         // all ordered pairs of mate distances for both mate variants, every mate distance against
@@ -179,7 +225,7 @@ pub fn run_c14(args: &Args) -> i32 {
         json!({
             "evaluations": n,
             "distinct_nontrivial": unequal_pairs,
-            "rule": "non-trivial = ordered pairs of DIFFERENT representative scores (counted). 25 representative scores (both sentinels; mate distances 0,1,2,0x7fff,0x8000,0xfffe,0xffff for both colours; numeric MIN,MIN+1,-2,-1,0,1,2,MAX-1,MAX): all pairs (cmp, partial_cmp, ==, !=, <,<=,>,>=, max, min, antisymmetry) and all triples (transitivity). quick adds every mate distance against its neighbours and the representatives; thorough adds all 65536^2 ordered pairs of mate distances (same colour and cross colour) and all 2^32 numeric scores against 15 representatives. Non-trivial = distinct ordered representative pairs.",
+            "rule": "non-trivial = ordered pairs of DIFFERENT representative scores (counted). 25 representative scores (both sentinels; mate distances 0,1,2,0x7fff,0x8000,0xfffe,0xffff for both colours; numeric MIN,MIN+1,-2,-1,0,1,2,MAX-1,MAX): all pairs (cmp, partial_cmp, ==, !=, <,<=,>,>=, max, min, antisymmetry) and all triples (transitivity); every mate distance of either colour and a numeric grid (every 65521st value plus +-300 around 0, +-900, 1800, 65535, -65536) against all 25 representatives in both orders with all observations. quick adds every mate distance against its neighbours and the representatives; thorough adds all 65536^2 ordered pairs of mate distances (same colour and cross colour) and all 2^32 numeric scores against 15 representatives. Non-trivial = distinct ordered representative pairs.",
             "exhaustive": true,
             "all_mate_distance_pairs": exhaustive_mates,
             "samples": [{"a": score_name(reps[i]), "b": score_name(reps[j]), "cmp": format!("{:?}", reps[i].cmp(&reps[j]))}],
@@ -502,8 +548,46 @@ fn c19_values(d: &mut Vec<Divergence>, n: &mut u64) {
         // array indexing by Pos uses the same numbering
         let mut arr = [0u8; 64];
         arr[p] = 1;
-        if arr[s as usize] != 1 {
+        let ro: &[u8; 64] = &arr;
+        if arr[s as usize] != 1 || ro[p] != 1 || arr.iter().map(|&x| x as u32).sum::<u32>() != 1 {
             bad("pos-index-wrong", text);
+        }
+    }
+    // the other array-index impls (read and write forms): File / Rank on [T; 8], Piece on [T; 6],
+    // Color and Side on [T; 2] use the same numbering as to_u8 / declaration order
+    for i in 0..8u8 {
+        let (f, r) = (File::from_u8(i).unwrap(), Rank::from_u8(i).unwrap());
+        let mut af = [0u8; 8];
+        let mut ar = [0u8; 8];
+        af[f] = 7;
+        ar[r] = 9;
+        let (rf, rr): (&[u8; 8], &[u8; 8]) = (&af, &ar);
+        if af[i as usize] != 7 || rf[f] != 7 || af.iter().filter(|&&x| x != 0).count() != 1 || ar[i as usize] != 9 || rr[r] != 9 || ar.iter().filter(|&&x| x != 0).count() != 1 {
+            bad("file-rank-array-index-wrong", format!("{i}"));
+        }
+    }
+    for (i, pc) in Piece::all().enumerate() {
+        let mut a = [0u8; 6];
+        a[pc] = 3;
+        let ro: &[u8; 6] = &a;
+        if a[i] != 3 || ro[pc] != 3 || a.iter().filter(|&&x| x != 0).count() != 1 || pc as usize != i {
+            bad("piece-array-index-wrong", format!("{pc:?}"));
+        }
+    }
+    for (i, c) in Color::all().enumerate() {
+        let mut a = [0u8; 2];
+        a[c] = 5;
+        let ro: &[u8; 2] = &a;
+        if a[i] != 5 || ro[c] != 5 || a[1 - i] != 0 {
+            bad("color-array-index-wrong", format!("{c:?}"));
+        }
+    }
+    for (i, sd) in Side::all().enumerate() {
+        let mut a = [0u8; 2];
+        a[sd] = 5;
+        let ro: &[u8; 2] = &a;
+        if a[i] != 5 || ro[sd] != 5 || a[1 - i] != 0 {
+            bad("side-array-index-wrong", format!("{sd:?}"));
         }
     }
     for i in 0..8u8 {
@@ -715,6 +799,21 @@ fn c19_moves(tier: Tier, d: &mut Vec<Divergence>, n: &mut u64) {
                             d.push(dv);
                         }
                     }
+                }
+            }
+        }
+    }
+    // the promotion arm of Display: "{src}-{dst}{letter}"; the property's text forms carry no
+    // promotion, so only the rendering is pinned
+    for from in 0..64u8 {
+        for to in 0..64u8 {
+            for (pp, letter) in [(PromotionPiece::Knight, 'n'), (PromotionPiece::Bishop, 'b'), (PromotionPiece::Rook, 'r'), (PromotionPiece::Queen, 'q')] {
+                *n += 1;
+                let m = ChessMove { source: pos(from), dest: pos(to), piece: Some(pp) };
+                let text = m.to_string();
+                let base = format!("{}-{}", refchess::sq_name(from), refchess::sq_name(to));
+                if !(text.len() == base.len() + 1 && text.starts_with(&base) && text[base.len()..].eq_ignore_ascii_case(&letter.to_string())) {
+                    d.push(Divergence::new("move-display-wrong", format!("{base} promoting to {pp:?} displays as {text}")));
                 }
             }
         }
